@@ -247,4 +247,21 @@ CHECKS = {
         assumptions=["the race detector only sees races on executed interleavings: sampling with amplification, not enumeration",
                      "mdns/zeroconf.go needs multicast sockets and is not exercised"],
     ),
+    "C02": dict(
+        level="exploration",
+        rule=("rapid-generated peers against a real started hub over real TLS sockets. Inbound: client certificate in {none, library generator "
+              "with arbitrary subject strings, hand-built with SKI absent / length 0..40 / 20 arbitrary bytes / 20 bytes copied from another "
+              "device's certificate / SHA-1 of its own key} x key type {P-256, P-384, RSA-2048} x TLS max version {1.0, 1.1, 1.2, 1.3} x "
+              "offered sub-protocols {none, ship, other, other+ship, SHIP}; the client sends SHIP init + hello and reads. Outbound: a hub is "
+              "made to dial (register + mDNS entry) a harness TLS/websocket server presenting a certificate from the same space, dialled SKI "
+              "equal or different. Oracle: accepted (SHIP bytes received or a callback naming a SKI) => certificate present, SKI 20 bytes = "
+              "SHA-1 of that certificate's public key, TLS >= 1.2, ship offered, attributed SKI = hex of it; generator certificates always "
+              "pass; outbound: zero SHIP frames unless presented SKI = dialled SKI and bound to the key. non-trivial = any case with a "
+              "certificate; distinct = hash of the case"),
+        runs=[dict(engine="certid", test="TestC02Inbound", shrinktime="5s", quick=dict(checks=2000, shards=4, timeout=900),
+                   thorough=dict(checks=60000, shards=8, timeout=4000)),
+              dict(engine="certid", test="TestC02Outbound", shrinktime="5s", quick=dict(checks=240, shards=4, timeout=900),
+                   thorough=dict(checks=6000, shards=8, timeout=4000))],
+        assumptions=["a refusal is observed as 'no SHIP byte within 400 ms and no callback'; the loopback handshake takes a few ms"],
+    ),
 }
